@@ -761,3 +761,100 @@ func ruleOPT9(c *Ctx) {
 	}
 	c.Floor("coder reset calls in functions with variadic options", n, 6)
 }
+
+func init() {
+	register(&Rule{ID: "CYCLE-2", Doc: "unmarshal does not follow an interface back to itself: in makeInterfaceArshaler's unmarshal closure, re-using the value already held by the interface (`v.Set(va.Elem())`, followed by a recursive unmarshal that consumes no input) is decided by a condition that compares the held pointer with the address of the interface value (reflect.Value.UnsafePointer/Pointer on both sides, inline or in a helper) — for `var v any; v = &v` the descent otherwise never ends and the process dies with a stack overflow (finding F14; encoding/json guards the same case in indirect)", Run: ruleCYCLE2})
+}
+
+func ruleCYCLE2(c *Ctx) {
+	p := c.P
+	f := p.Func("json.makeInterfaceArshaler:unmarshal")
+	if f == nil || f.Body() == nil {
+		c.Undecide("json.makeInterfaceArshaler:unmarshal", "closure missing")
+		return
+	}
+	n := 0
+	for _, g := range p.CalleeClosure(f, 1) {
+		if g.Body() == nil || (g != f && g.File != f.File) {
+			continue
+		}
+		info := g.Info()
+		InspectNoLit(g.Body(), func(nd ast.Node) bool {
+			call, ok := nd.(*ast.CallExpr)
+			if !ok || len(call.Args) != 1 {
+				return true
+			}
+			fn := Callee(info, call)
+			if fn == nil || fn.Name() != "Set" || fn.Pkg() == nil || fn.Pkg().Path() != "reflect" {
+				return true
+			}
+			// the argument is X.Elem() of an interface-kinded addressableValue parameter
+			arg, ok := ast.Unparen(call.Args[0]).(*ast.CallExpr)
+			if !ok {
+				return true
+			}
+			if afn := Callee(info, arg); afn == nil || afn.Name() != "Elem" {
+				return true
+			}
+			sel, ok := ast.Unparen(arg.Fun).(*ast.SelectorExpr)
+			if !ok {
+				return true
+			}
+			pv, _ := IdentObj(info, sel.X).(*types.Var)
+			if pv == nil || !isNamed(pv.Type(), pkgAlias["json"], "addressableValue") {
+				return true
+			}
+			n++
+			guarded := false
+			for _, cc := range enclosingConds(p, g, call) {
+				for _, d := range disjuncts(cc.cond) {
+					if isSelfPointerTest(p, g, d) {
+						guarded = true
+					}
+				}
+			}
+			c.Oblige("held-value-reuse-excludes-self-pointer:"+g.Name, call.Pos(), guarded, "the value held by the interface is re-used as the destination without testing whether it is a pointer back to this interface value: for `var v any; v = &v` Unmarshal(data, &v) alternates between the interface and the pointer arshaler without consuming input until the stack overflows (fatal, not recoverable)")
+			return true
+		})
+	}
+	c.Floor("re-use of the held interface value in unmarshal", n, 1)
+}
+
+// comparesReflectPointers reports whether root contains a comparison of two reflect.Value.UnsafePointer/Pointer results.
+func comparesReflectPointers(g *FuncInfo, root ast.Node) bool {
+	info := g.Info()
+	found := false
+	ast.Inspect(root, func(m ast.Node) bool {
+		be, ok := m.(*ast.BinaryExpr)
+		if !ok || (be.Op != token.EQL && be.Op != token.NEQ) {
+			return true
+		}
+		isPtr := func(e ast.Expr) bool {
+			call, ok := ast.Unparen(e).(*ast.CallExpr)
+			if !ok {
+				return false
+			}
+			fn := Callee(info, call)
+			return fn != nil && fn.Pkg() != nil && fn.Pkg().Path() == "reflect" && (fn.Name() == "UnsafePointer" || fn.Name() == "Pointer")
+		}
+		if isPtr(be.X) && isPtr(be.Y) {
+			found = true
+		}
+		return true
+	})
+	return found
+}
+
+// isSelfPointerTest reports whether e tests that a value points back to itself: a pointer comparison inline, or a
+// call of a module function whose body makes one (CYCLE-2).
+func isSelfPointerTest(p *Program, f *FuncInfo, e ast.Expr) bool {
+	if comparesReflectPointers(f, e) {
+		return true
+	}
+	if call, ok := ast.Unparen(e).(*ast.CallExpr); ok {
+		if h := p.FuncOf(Callee(f.Info(), call)); h != nil && h.Body() != nil && comparesReflectPointers(h, h.Body()) {
+			return true
+		}
+	}
+	return false
+}
